@@ -26,6 +26,16 @@ import (
 	"verif/harness/stats"
 )
 
+// raceZones: many zone names, so that "first use of a zone" keeps happening during a run.
+var raceZones = []string{"Asia/Kathmandu", "Atlantic/Reykjavik", "America/St_Johns", "Pacific/Chatham", "Europe/Berlin", "Asia/Tokyo", "Asia/Kolkata",
+	"Europe/Moscow", "Europe/London", "Europe/Paris", "Europe/Madrid", "Europe/Rome", "Europe/Vienna", "Europe/Warsaw", "Europe/Kyiv", "Europe/Istanbul",
+	"America/New_York", "America/Chicago", "America/Denver", "America/Los_Angeles", "America/Anchorage", "America/Sao_Paulo", "America/Bogota", "America/Lima",
+	"America/Mexico_City", "America/Toronto", "America/Vancouver", "America/Halifax", "America/Caracas", "America/Santiago", "Africa/Cairo", "Africa/Lagos",
+	"Africa/Nairobi", "Africa/Johannesburg", "Africa/Casablanca", "Asia/Dubai", "Asia/Tehran", "Asia/Karachi", "Asia/Dhaka", "Asia/Bangkok", "Asia/Jakarta",
+	"Asia/Shanghai", "Asia/Hong_Kong", "Asia/Singapore", "Asia/Seoul", "Asia/Manila", "Asia/Yangon", "Asia/Tashkent", "Asia/Almaty", "Asia/Vladivostok",
+	"Australia/Sydney", "Australia/Perth", "Australia/Adelaide", "Australia/Lord_Howe", "Pacific/Auckland", "Pacific/Honolulu", "Pacific/Fiji", "Pacific/Apia",
+	"Atlantic/Azores", "Indian/Maldives"}
+
 func TestC12ClientRaces(t *testing.T) {
 	st := stats.G()
 	defer func() { otelOn = false }()
@@ -64,9 +74,10 @@ func raceInsert(rt *rapid.T, scen string) {
 	cols := drawInput(rt, "col", 2, 1)
 	// One run in three: zone-parameterised time types on both sides at once - an input column the
 	// sender infers from the column info, telemetry time columns the receiver infers.
-	zone := ""
+	zone, zoneIn := "", ""
 	if rapid.IntRange(0, 2).Draw(rt, "zoned-times") == 0 {
-		zone = rapid.SampledFrom([]string{"Asia/Kathmandu", "Atlantic/Reykjavik", "America/St_Johns", "Pacific/Chatham", "Europe/Berlin"}).Draw(rt, "zone")
+		zone = rapid.SampledFrom(raceZones).Draw(rt, "zone")
+		zoneIn = rapid.SampledFrom(raceZones).Draw(rt, "input-zone")
 		k := gen.ByName["DateTime('UTC')|X|DateTime"]
 		if k != nil {
 			rows := gen.DrawRows(rt, k, len(cols[0].rows))
@@ -76,8 +87,13 @@ func raceInsert(rt *rapid.T, scen string) {
 	}
 	rounds := rapid.IntRange(2, 5).Draw(rt, "rounds")
 	m := comp.Method
+	hdr := headerItem(cols)
+	if zoneIn != "" && cols[0].kind.Scalar == "DateTime" {
+		// the server announces its own zone for the column; the sender adopts it
+		hdr.Block.Columns[0].T = ref.Fixed("DateTime('"+zoneIn+"')", 4)
+	}
 	e.srv.Steps = append(e.srv.Steps,
-		itemStep(headerItem(cols), simnet.AfterQuery(1), m, nil))
+		itemStep(hdr, simnet.AfterQuery(1), m, nil))
 	if scen == "surplus-headers" {
 		// redundant column-info blocks right behind the first one, while the sender is still using it
 		for i := 0; i < 3; i++ {
